@@ -98,6 +98,7 @@ def isStandardFace (el : Element) : Bool :=
 
 /-- header validation of `readColorPLY`; elements are checked in order, the first offender fails. -/
 def colorHeaderOK (h : Header) : Bool :=
+  h.elements.all (fun el => !el.props.isEmpty) &&   -- repaired: rows without properties occupy no bytes
   h.elements.all (fun el =>
     if el.name = ascii "vertex" then isStandardVertex el
     else if el.name = ascii "face" then isStandardFace el else true) &&
